@@ -94,7 +94,10 @@ def tlc_dir(name, extra_files=None):
 
 
 def java_cmd(heap="4g", gcthreads=None, deque=False):
-    cmd = ["java", "-XX:+UseParallelGC", "-Xmx" + heap, "-Xss64m"]
+    # TLC creates a tlc-<n> directory under java.io.tmpdir for every run: keep them inside the scratch directory (removed at exit)
+    jt = os.path.join(scratch(), "jtmp")
+    os.makedirs(jt, exist_ok=True)
+    cmd = ["java", "-XX:+UseParallelGC", "-Xmx" + heap, "-Xss64m", "-Djava.io.tmpdir=" + jt]
     if gcthreads:
         cmd.append("-XX:ParallelGCThreads=%d" % gcthreads)
     if deque:
